@@ -62,126 +62,7 @@ func checkC16(c *core.Ctx, l *core.Ledger) {
 	l.RuleText = "one obligation per construction site / close path / framing primitive"
 	l.Assumptions = []string{"os/exec pipes and Wait behave as documented"}
 
-	// ---- HANDSHAKE-GATE
-	nth := c.SSAFunc(c.LookupFunc("internal/plugin", "NewTransportHandle"))
-	ths := allocsOf(c, "transportHandle", "internal/plugin")
-	if nth == nil || len(ths) == 0 {
-		l.Unk("HANDSHAKE-GATE", "anchor", "", "NewTransportHandle or the transportHandle literal not found")
-	} else {
-		for i, a := range ths {
-			key := fmt.Sprintf("transportHandle-literal#%d", i+1)
-			if a.Parent() != nth {
-				l.Bad("HANDSHAKE-GATE", key, c.Rel(a.Pos()), "a plugin handle is constructed outside NewTransportHandle, bypassing the handshake")
-				continue
-			}
-			var why []string
-			hs := callsIn(nth, "Handshake")
-			if len(hs) != 1 {
-				why = append(why, "no single Handshake call")
-			} else {
-				okE := successEdges(nth, func(call *ssa.Call) bool { return ssa.Instruction(call) == hs[0] })
-				if !core.AllPathsThroughEdges(nth, a.Block(), okE) {
-					why = append(why, "the handle can be built although the handshake call failed")
-				}
-			}
-			eq := func(field string, other func(ssa.Value) bool) bool {
-				edges := core.GuardEdgesDeep(nth, func(cm core.Cmp) bool {
-					if cm.Op != token.EQL {
-						return false
-					}
-					fx, _ := core.LoadedField(cm.X)
-					fy, _ := core.LoadedField(cm.Y)
-					if fx != nil && fx.Name() == field && other(cm.Y) {
-						return true
-					}
-					if fy != nil && fy.Name() == field && other(cm.X) {
-						return true
-					}
-					return false
-				}, 2)
-				return core.AllPathsThroughEdges(nth, a.Block(), edges)
-			}
-			if !eq("Name", func(v ssa.Value) bool { _, ok := v.(*ssa.Parameter); return ok }) {
-				why = append(why, "the handle can be built although the plugin reported a different name")
-			}
-			if !eq("APIVersion", func(v ssa.Value) bool {
-				if _, isC := v.(*ssa.Const); isC {
-					return true
-				}
-				return strings.Contains(core.Sym(v), "APIVersion")
-			}) {
-				why = append(why, "the handle can be built although the plugin reported a different API version")
-			}
-			l.Check(len(why) == 0, "HANDSHAKE-GATE", key, c.Rel(a.Pos()), "constructed only after a successful handshake with matching name and API version", strings.Join(why, "; "))
-		}
-	}
-	sgf := c.SSAFunc(c.LookupFunc("internal/plugin", "transportHandle.ServiceGenerator"))
-	sgs := allocsOf(c, "serviceGenerator", "internal/plugin")
-	if sgf == nil || len(sgs) == 0 {
-		l.Unk("HANDSHAKE-GATE", "anchor:serviceGenerator", "", "transportHandle.ServiceGenerator or its literal not found")
-	} else {
-		for i, a := range sgs {
-			key := fmt.Sprintf("serviceGenerator-literal#%d", i+1)
-			if a.Parent() != sgf {
-				l.Bad("HANDSHAKE-GATE", key, c.Rel(a.Pos()), "a service-generator client is constructed outside transportHandle.ServiceGenerator")
-				continue
-			}
-			// feature lookup hit
-			var hit []core.Edge
-			core.Instrs(sgf, func(in ssa.Instruction) {
-				if lk, ok := in.(*ssa.Lookup); ok && lk.CommaOk {
-					// the handle's feature set: its field keyed by api.Feature, whatever it is called
-					if fld, _ := core.LoadedField(lk.X); fld != nil && isMapKeyedBy(fld.Type(), "Feature") {
-						for _, r := range *lk.Referrers() {
-							if ex, ok := r.(*ssa.Extract); ok && ex.Index == 1 {
-								for _, rr := range *ex.Referrers() {
-									if ifi, ok := rr.(*ssa.If); ok {
-										hit = append(hit, core.Edge{From: ifi.Block(), To: ifi.Block().Succs[0]})
-									}
-								}
-							}
-						}
-					}
-				}
-			})
-			okFeature := core.AllPathsThroughEdges(sgf, a.Block(), hit)
-			// the key looked up is the service-generator feature constant
-			keyOK := false
-			core.Instrs(sgf, func(in ssa.Instruction) {
-				if lk, ok := in.(*ssa.Lookup); ok {
-					if k, isC := lk.Index.(*ssa.Const); isC && k.Value != nil {
-						ft := c.Pkg("plugin/api").Types.Scope().Lookup("FeatureServiceGenerator")
-						if fc, ok := ft.(*types.Const); ok && fc.Val().ExactString() == k.Value.ExactString() {
-							keyOK = true
-						}
-					}
-				}
-			})
-			// running test: Load() true edge (negated: !Load → panic)
-			runOK := len(callsIn(sgf, "Load")) > 0
-			l.Check(okFeature && keyOK && runOK, "HANDSHAKE-GATE", key, c.Rel(a.Pos()), "constructed only when the handshake advertised the service-generator feature and the handle is still open",
-				fmt.Sprintf("service-generator client can be built without the feature (feature-dominated=%v, key-is-feature-constant=%v, running-test=%v)", okFeature, keyOK, runOK))
-		}
-	}
-	// the plugin's Generate RPC is invoked only in serviceGenerator.Generate
-	nGen := 0
-	for _, f := range c.AllFuncs("internal/plugin") {
-		if c.IsTestFile(f.Pos()) {
-			continue
-		}
-		core.Instrs(f, func(in ssa.Instruction) {
-			call, ok := in.(ssa.CallInstruction)
-			if !ok || !call.Common().IsInvoke() || call.Common().Method.Name() != "Generate" {
-				return
-			}
-			if core.TypeLabel(call.Common().Value.Type()) != "plugin/api.ServiceGenerator" {
-				return
-			}
-			nGen++
-			l.Check(recvNamed(f) == "serviceGenerator" && f.Name() == "Generate", "HANDSHAKE-GATE", "Generate-rpc:"+core.SSAName(f), c.Rel(in.Pos()), "the Generate RPC is issued only by the feature-gated client wrapper", "the plugin's Generate RPC is issued outside the gated wrapper")
-		})
-	}
-	l.Floor("HANDSHAKE-GATE", 3)
+	checkHandshakeGate(c, l)
 
 	// ---- CLOSE
 	if f := c.SSAFunc(c.LookupFunc("internal/plugin", "transportHandle.Close")); f != nil {
@@ -893,4 +774,130 @@ func isMapKeyedBy(t types.Type, key string) bool {
 	}
 	n, ok := m.Key().(*types.Named)
 	return ok && n.Obj().Name() == key
+}
+
+// checkHandshakeGate (HANDSHAKE-GATE): see the explanation of C16. A handle,
+// and so any file a plugin contributes, exists only after a handshake that
+// succeeded with the expected name and exactly the expected API version.
+func checkHandshakeGate(c *core.Ctx, l *core.Ledger) {
+	// ---- HANDSHAKE-GATE
+	nth := c.SSAFunc(c.LookupFunc("internal/plugin", "NewTransportHandle"))
+	ths := allocsOf(c, "transportHandle", "internal/plugin")
+	if nth == nil || len(ths) == 0 {
+		l.Unk("HANDSHAKE-GATE", "anchor", "", "NewTransportHandle or the transportHandle literal not found")
+	} else {
+		for i, a := range ths {
+			key := fmt.Sprintf("transportHandle-literal#%d", i+1)
+			if a.Parent() != nth {
+				l.Bad("HANDSHAKE-GATE", key, c.Rel(a.Pos()), "a plugin handle is constructed outside NewTransportHandle, bypassing the handshake")
+				continue
+			}
+			var why []string
+			hs := callsIn(nth, "Handshake")
+			if len(hs) != 1 {
+				why = append(why, "no single Handshake call")
+			} else {
+				okE := successEdges(nth, func(call *ssa.Call) bool { return ssa.Instruction(call) == hs[0] })
+				if !core.AllPathsThroughEdges(nth, a.Block(), okE) {
+					why = append(why, "the handle can be built although the handshake call failed")
+				}
+			}
+			eq := func(field string, other func(ssa.Value) bool) bool {
+				edges := core.GuardEdgesDeep(nth, func(cm core.Cmp) bool {
+					if cm.Op != token.EQL {
+						return false
+					}
+					fx, _ := core.LoadedField(cm.X)
+					fy, _ := core.LoadedField(cm.Y)
+					if fx != nil && fx.Name() == field && other(cm.Y) {
+						return true
+					}
+					if fy != nil && fy.Name() == field && other(cm.X) {
+						return true
+					}
+					return false
+				}, 2)
+				return core.AllPathsThroughEdges(nth, a.Block(), edges)
+			}
+			if !eq("Name", func(v ssa.Value) bool { _, ok := v.(*ssa.Parameter); return ok }) {
+				why = append(why, "the handle can be built although the plugin reported a different name")
+			}
+			if !eq("APIVersion", func(v ssa.Value) bool {
+				if _, isC := v.(*ssa.Const); isC {
+					return true
+				}
+				return strings.Contains(core.Sym(v), "APIVersion")
+			}) {
+				why = append(why, "the handle can be built although the plugin reported a different API version")
+			}
+			l.Check(len(why) == 0, "HANDSHAKE-GATE", key, c.Rel(a.Pos()), "constructed only after a successful handshake with matching name and API version", strings.Join(why, "; "))
+		}
+	}
+	sgf := c.SSAFunc(c.LookupFunc("internal/plugin", "transportHandle.ServiceGenerator"))
+	sgs := allocsOf(c, "serviceGenerator", "internal/plugin")
+	if sgf == nil || len(sgs) == 0 {
+		l.Unk("HANDSHAKE-GATE", "anchor:serviceGenerator", "", "transportHandle.ServiceGenerator or its literal not found")
+	} else {
+		for i, a := range sgs {
+			key := fmt.Sprintf("serviceGenerator-literal#%d", i+1)
+			if a.Parent() != sgf {
+				l.Bad("HANDSHAKE-GATE", key, c.Rel(a.Pos()), "a service-generator client is constructed outside transportHandle.ServiceGenerator")
+				continue
+			}
+			// feature lookup hit
+			var hit []core.Edge
+			core.Instrs(sgf, func(in ssa.Instruction) {
+				if lk, ok := in.(*ssa.Lookup); ok && lk.CommaOk {
+					// the handle's feature set: its field keyed by api.Feature, whatever it is called
+					if fld, _ := core.LoadedField(lk.X); fld != nil && isMapKeyedBy(fld.Type(), "Feature") {
+						for _, r := range *lk.Referrers() {
+							if ex, ok := r.(*ssa.Extract); ok && ex.Index == 1 {
+								for _, rr := range *ex.Referrers() {
+									if ifi, ok := rr.(*ssa.If); ok {
+										hit = append(hit, core.Edge{From: ifi.Block(), To: ifi.Block().Succs[0]})
+									}
+								}
+							}
+						}
+					}
+				}
+			})
+			okFeature := core.AllPathsThroughEdges(sgf, a.Block(), hit)
+			// the key looked up is the service-generator feature constant
+			keyOK := false
+			core.Instrs(sgf, func(in ssa.Instruction) {
+				if lk, ok := in.(*ssa.Lookup); ok {
+					if k, isC := lk.Index.(*ssa.Const); isC && k.Value != nil {
+						ft := c.Pkg("plugin/api").Types.Scope().Lookup("FeatureServiceGenerator")
+						if fc, ok := ft.(*types.Const); ok && fc.Val().ExactString() == k.Value.ExactString() {
+							keyOK = true
+						}
+					}
+				}
+			})
+			// running test: Load() true edge (negated: !Load → panic)
+			runOK := len(callsIn(sgf, "Load")) > 0
+			l.Check(okFeature && keyOK && runOK, "HANDSHAKE-GATE", key, c.Rel(a.Pos()), "constructed only when the handshake advertised the service-generator feature and the handle is still open",
+				fmt.Sprintf("service-generator client can be built without the feature (feature-dominated=%v, key-is-feature-constant=%v, running-test=%v)", okFeature, keyOK, runOK))
+		}
+	}
+	// the plugin's Generate RPC is invoked only in serviceGenerator.Generate
+	nGen := 0
+	for _, f := range c.AllFuncs("internal/plugin") {
+		if c.IsTestFile(f.Pos()) {
+			continue
+		}
+		core.Instrs(f, func(in ssa.Instruction) {
+			call, ok := in.(ssa.CallInstruction)
+			if !ok || !call.Common().IsInvoke() || call.Common().Method.Name() != "Generate" {
+				return
+			}
+			if core.TypeLabel(call.Common().Value.Type()) != "plugin/api.ServiceGenerator" {
+				return
+			}
+			nGen++
+			l.Check(recvNamed(f) == "serviceGenerator" && f.Name() == "Generate", "HANDSHAKE-GATE", "Generate-rpc:"+core.SSAName(f), c.Rel(in.Pos()), "the Generate RPC is issued only by the feature-gated client wrapper", "the plugin's Generate RPC is issued outside the gated wrapper")
+		})
+	}
+	l.Floor("HANDSHAKE-GATE", 3)
 }
